@@ -183,7 +183,7 @@ def run_case(case, R):
     put = P.Vanilla(strike=k, payoff_type=P.PayoffType.PUT)(x)
     fwd = P.Forward(strike=k)(x)
     R.hit("parity_identities")
-    if abs(call - put - fwd) > 1e-12 * (abs(x) + abs(k)):
+    if not (abs(call - put - fwd) <= 1e-12 * (abs(x) + abs(k))):
         R.violation("call-minus-put-not-forward", f"call - put = {call - put!r}, forward = {fwd!r} (S = {x}, K = {k})", wit)
     k1, k2, k3 = sorted(x * rng.uniform(0.5, 1.5, size=3))
     if k1 < k2 < k3:
@@ -191,9 +191,9 @@ def run_case(case, R):
         cs = float(P.CallSpread(strike1=k1, strike2=k2)(x))
         bf = float(P.Butterfly(strike1=k1, strike2=k2, strike3=k3)(x))
         R.hit("parity_identities")
-        if abs(cs - (c1 - c2)) > 1e-12 * x or cs < 0:
+        if not (abs(cs - (c1 - c2)) <= 1e-12 * x and cs >= 0):
             R.violation("call-spread-identity", f"call spread {cs!r} vs c(K1) - c(K2) = {c1 - c2!r} (S = {x}, K = {k1},{k2})", wit)
-        if abs(bf - (c1 - 2 * c2 + c3)) > 1e-12 * x:
+        if not (abs(bf - (c1 - 2 * c2 + c3)) <= 1e-12 * x):
             R.violation("butterfly-identity", f"butterfly {bf!r} vs call combination {c1 - 2 * c2 + c3!r}", wit)
         # the library's butterfly (weights 1,-2,1) is non-negative only for symmetric strikes: checked there
         ks = k2 - (k3 - k2)
@@ -222,10 +222,10 @@ def run_case(case, R):
             van = float(P.Vanilla(strike=k, payoff_type=pt)(float(path1[-1])))
             crossed = bool(np.any(path1 < lvl)) if down else bool(np.any(path1 > lvl))
             R.hit("barrier_identities")
-            if abs(vals[0] + vals[1] - van) > 1e-12 * (1 + van):
+            if not (abs(vals[0] + vals[1] - van) <= 1e-12 * (1 + van)):
                 R.violation("knock-in-plus-knock-out-not-vanilla", f"knock-in {vals[0]!r} + knock-out {vals[1]!r} != vanilla {van!r}", wit)
             want_in = van if crossed else 0.0
-            if abs(vals[0] - want_in) > 1e-12 * (1 + van):
+            if not (abs(vals[0] - want_in) <= 1e-12 * (1 + van)):
                 R.violation("barrier-event-depends-on-earlier-paths", f"{'down' if down else 'up'}-and-in on a path that "
                             f"{'crosses' if crossed else 'never crosses'} the barrier {lvl!r} pays {vals[0]!r} (vanilla {van!r}) after an earlier "
                             "path of the same product had knocked", wit)
@@ -243,7 +243,7 @@ def run_case(case, R):
             if not (lo * (1 - 1e-12) <= v <= hi * (1 + 1e-12)):
                 R.violation("average-outside-extremes", f"Asian average {v!r} outside [{lo!r}, {hi!r}] ({rep.name})", wit)
             want = float(np.sum(S1[1:] * np.diff(times)) / times[-1])
-            if abs(v - want) > 1e-12 * want:
+            if not (abs(v - want) <= 1e-12 * want):
                 R.violation("average-not-time-weighted-mean", f"Asian average {v!r}, time-weighted mean of the path {want!r}", wit)
     else:
         pr = Product(payoff_underlying=U.Mean(), payoff=P.Forward(strike=0.0), maturity=1.0)
@@ -294,7 +294,7 @@ def run_case(case, R):
     p1 = Product(payoff_underlying=U.Spot(), payoff=P.Vanilla(strike=k, payoff_type=P.PayoffType.CALL), maturity=1.0, notional=1.0)
     p2 = Product(payoff_underlying=U.Spot(), payoff=P.Vanilla(strike=k, payoff_type=P.PayoffType.CALL), maturity=1.0, notional=nt)
     R.hit("notional_linearity")
-    if abs(float(p2(x)) - nt * float(p1(x))) > 1e-12 * abs(nt) * x:
+    if not (abs(float(p2(x)) - nt * float(p1(x))) <= 1e-12 * abs(nt) * x):
         R.violation("notional-not-linear", f"notional {nt}: {p2(x)!r} vs {nt} * {p1(x)!r}", wit)
     if nonzero:
         R.nontrivial_case(case["seed"])
